@@ -25,8 +25,9 @@ Layouts == { <<"Id", "Name", "X1", "X2">>, <<"Name", "Id", "X1">>, <<"", "Id", "
              <<"Id", "", "X1", "Name">>, <<"Opt", "Id", "X1", "X2", "Name">>, <<"Id", "Name", "X1", "", "X2">> }
 Known == {"Id", "Name", "Opt"}
 
-VARIABLES titles, lead, rows, tail, stopOn, ladder, phase
-vars == <<titles, lead, rows, tail, stopOn, ladder, phase>>
+VARIABLES titles, lead, rows, tail, stopOn, ladder, phase,
+          keyN      \* number of key attributes of the object class: 1 (id) or 2 (id, name); a row gives None iff ALL key cells are blank
+vars == <<titles, lead, rows, tail, stopOn, ladder, phase, keyN>>
 
 NC == Len(titles)
 RowBlank(r) == \A i \in 1 .. Len(r) : r[i] = Blank
@@ -65,7 +66,7 @@ ColName(i) == <<"A", "B", "C", "D", "E", "F">>[i]
 Origin(c, i) == [col |-> ColName(i), row |-> c.r]
 Obj(eff) ==
   LET idc == Col("Id") IN
-  IF eff[idc].v = Blank THEN [isnone |-> TRUE]
+  IF eff[idc].v = Blank /\ (keyN = 1 \/ eff[Col("Name")].v = Blank) THEN [isnone |-> TRUE]
   ELSE [isnone |-> FALSE,
         id   |-> [val |-> Conv(eff[idc].v), org |-> Origin(eff[idc], idc)],
         name |-> [val |-> Conv(eff[Col("Name")].v), org |-> Origin(eff[Col("Name")], Col("Name"))],
@@ -84,23 +85,24 @@ Values(o) == IF o.isnone THEN o
 
 (* ---------- builder ---------- *)
 Init == /\ titles = <<>> /\ lead = 0 /\ rows = <<>> /\ tail = <<>> /\ stopOn = "blank all" /\ ladder = FALSE
-        /\ phase = "layout"
+        /\ phase = "layout" /\ keyN = 1
 ChooseLayout == /\ phase = "layout" /\ phase' = "rows"
                 /\ \E t \in Layouts : titles' = t
                 /\ \E l \in 0 .. 1 : lead' = l
                 /\ \E s \in {"blank all", "blank first"} : stopOn' = s
                 /\ \E ld \in BOOLEAN : ladder' = ld
+                /\ \E kn \in 1 .. 2 : keyN' = kn
                 /\ UNCHANGED <<rows, tail>>
 AddRow == /\ phase = "rows" /\ Len(rows) < MaxRows
           /\ \E r \in [1 .. NC -> Vals] : rows' = Append(rows, r)
-          /\ UNCHANGED <<titles, lead, tail, stopOn, ladder, phase>>
+          /\ UNCHANGED <<titles, lead, tail, stopOn, ladder, phase, keyN>>
 Finish == /\ phase = "rows" /\ phase' = "done"
           /\ \E tl \in { <<>>, <<BlankRow, [i \in 1 .. NC |-> "b"]>> } : tail' = tl
-          /\ UNCHANGED <<titles, lead, rows, stopOn, ladder>>
+          /\ UNCHANGED <<titles, lead, rows, stopOn, ladder, keyN>>
 Report == /\ phase = "done" /\ phase' = "reported"
-          /\ Emit => PrintT(ToJson([sheet |-> Sheet, stopOn |-> stopOn, ladder |-> ladder,
+          /\ Emit => PrintT(ToJson([sheet |-> Sheet, stopOn |-> stopOn, ladder |-> ladder, keyN |-> keyN,
                                     objs |-> Read(Sheet), filled |-> Fill(Sheet)]))
-          /\ UNCHANGED <<titles, lead, rows, tail, stopOn, ladder>>
+          /\ UNCHANGED <<titles, lead, rows, tail, stopOn, ladder, keyN>>
 Next == ChooseLayout \/ AddRow \/ Finish \/ Report
 Spec == Init /\ [][Next]_vars
 
